@@ -456,8 +456,10 @@ class QvmCpu:
 
     def _drop_partial_results(self):
         # an error in the middle of an expression leaves operands of
-        # the unfinished statement on the stack; the handler (or the
-        # next statement) must not see them
+        # the unfinished statement on the stack; they are dropped when
+        # execution resumes (RESUME, RESUME NEXT, ON ERROR RESUME NEXT),
+        # so that programs which never resume behave the same with and
+        # without debug info
         depth = self.stmt_start_depth
         if depth is not None and depth <= len(self.stack):
             del self.stack[depth:]
@@ -474,7 +476,6 @@ class QvmCpu:
 
         if not self.error_handler_active and \
            self.trap_target is not None:
-            self._drop_partial_results()
             if self.trap_target == 'next':
                 try:
                     self._exec_errresn()
@@ -853,6 +854,7 @@ class QvmCpu:
                       msg=f'Could not find statement to resume at addr {self.trapped_addr:08x}.')
         self.pc = stmt.start_offset
         self.error_handler_active = False
+        self._drop_partial_results()
 
     def _exec_errresn(self):
         # RESUME NEXT
@@ -865,6 +867,7 @@ class QvmCpu:
                       msg=f'Could not find statement to resume at addr {self.trapped_addr:08x}.')
         self.pc = stmt.end_offset
         self.error_handler_active = False
+        self._drop_partial_results()
 
     def _exec_exp(self):
         b = self.pop()
